@@ -299,6 +299,10 @@ for _pid in ('C04', 'C05', 'C07'):
 for _pid in ('C13', 'C05'):
     if 'OtterVerif.Props.C13Joint' not in PROPS[_pid]['modules']:
         PROPS[_pid]['modules'].append('OtterVerif.Props.C13Joint')
+# the glue between write events and the two policies (runTask / onAccess) = the steps of the joint models; guards regenerated
+for _pid in ('C05', 'C13', 'C06'):
+    if 'OtterVerif.Props.C05Maint' not in PROPS[_pid]['modules']:
+        PROPS[_pid]['modules'].append('OtterVerif.Props.C05Maint')
 for _pid, _mods in PINS.items():
     for _m in _mods:
         _name = 'OtterVerif.Pin.' + _m
